@@ -51,7 +51,7 @@ def check(patch, props, tier="quick"):
             lines = [l for l in pr.stdout.split("\n") if l.startswith(("VIOLATION", "INCONCLUSIVE", "  detail"))]
             out[p] = {"exit": pr.returncode, "s": round(time.time() - t), "lines": [l[:400] for l in lines[:4]]}
     finally:
-        sh("git -C /repo checkout -- .", "/repo")
+        sh(f"git -C /repo apply -R {patch}", "/repo"); sh("git -C /repo checkout -- .", "/repo")
     return out
 
 
